@@ -225,6 +225,7 @@ package pubsub
 
 //@ func (*GossipSubRouter).sendGraft
 //@   property C07 C08
+//@   requires wf: wfGS(gs)
 //@   noframe
 //@   modifies nGraft
 //@   ghost-effect counted: nGraft[topic][p] == old(nGraft[topic][p]) + 1 &&
@@ -282,7 +283,7 @@ package pubsub
 // traced as GRAFT and sent exactly one GRAFT, and no other mesh changes.
 //@ func (*GossipSubRouter).Join
 //@   property C07 C08 C19
-//@   requires sep: sepMesh(gs) && sepFanout(gs) && sepBackoff(gs)
+//@   requires sep: sepMesh(gs) && sepFanout(gs) && sepBackoff(gs) && wfGS(gs)
 //@   noframe
 //@   loop 1 invariant cleaning: forall q string :: has(gs.fanout, topic, q) ==> old(has(gs.fanout, topic, q)) && ($visited[q] ==> eligibleKept(gs, topic, q))
 //@   loop 1 invariant stable: stableJoin(gs, topic) && gmap == gs.fanout[topic] && topic in gs.fanout && backoff == gs.backoff[topic] && nGraftSame()
@@ -292,7 +293,7 @@ package pubsub
 //@   loop getPeers#2.1 invariant stable: stableJoin(gs, topic) && nGraftSame()
 //@   loop 2 invariant adding: stableJoin(gs, topic) && nGraftSame() && gmap == gs.fanout[topic] && topic in gs.fanout &&
 //@        (forall q string :: q in gmap ==> eligibleKept(gs, topic, q)) && (forall i int :: 0 <= i && i < len(more) ==> eligible(gs, topic, more[i]))
-//@   loop 3 invariant grafting: gmap == gs.mesh[topic] && topic in gs.mesh && !(topic in gs.fanout) && otherMeshesSame(gs, topic) &&
+//@   loop 3 invariant grafting: wfGS(gs) && gmap == gs.mesh[topic] && topic in gs.mesh && !(topic in gs.fanout) && otherMeshesSame(gs, topic) &&
 //@        (forall q string :: nGraft[topic][q] - old(nGraft[topic][q]) == ite($visited[q], 1, 0)) &&
 //@        (forall t string, q string :: t != topic ==> nGraft[t][q] == old(nGraft[t][q])) &&
 //@        (forall q string :: $visited[q] ==> q in gmap) && sepMesh(gs) && sepBackoff(gs) && backoffSame(gs) &&
@@ -747,7 +748,7 @@ package pubsub
 // reported (DROP_RPC) instead of being written to the wire.
 //@ func (*GossipSubRouter).sendRPC
 //@   property C11
-//@   requires wf: wfGS(gs) && out != nil && gs.p.peers != nil && gs.control != nil && gs.gossip != nil
+//@   requires wf: wfGS(gs) && out != nil
 //@   noframe
 //@   at call doSendRPC assert below-limit: lastret((*pb.RPC).Size) < gs.p.maxMessageSize && lastarg((*pb.RPC).Size, 0) == $arg1.RPC && $arg2 == p && $arg3 == gs.p.peers[p]
 //@ func (*GossipSubRouter).sendRPC$1
